@@ -47,7 +47,7 @@ class UserOps:
 class C18(Check):
     ID = "C18"
     IMPORTS = hist.IMPORTS
-    QUICK_N = 10
+    QUICK_N = 15
     THOROUGH_N = 80
     CASE_TIMEOUT = 400
     RULE = ("for random configurations of DE / NSDE / GDE3 / GDE3MNN / NSDE-R (stateful reference-direction survival), F given or left at its default, some with a user-supplied "
@@ -55,7 +55,7 @@ class C18(Check):
             "together with numpy.random.get_state(); each checkpoint is resumed (deepcopy/dill/pickle in this process after disturbing the generator, pickle also in a fresh "
             "interpreter) with the saved generator state and must reproduce every later generation of the uninterrupted run (fingerprints of X, F, G, optimum); "
             "minimize(save_history=True) must end in the same population as save_history=False; the uninterrupted run is also compared with the Coq model step by step; "
-            "non-trivial = at least 3 interruption points; distinct by hash")
+            "non-trivial = at least 3 interruption points; distinct by hash; one case in four or five is a multi-feature scenario taken in turn and run in a process of its own (the algorithm's default survival object after a run on an unconstrained problem, now on a problem with 20-80% feasible points; constraint-ranking or default survival with a small feasible region reached one member at a time; single-objective DE with a minimal population on a coarse plateau, 8 generations; constraint-ranking survival with two constraints and at most 30% feasible points; the dither range as one shared float array)")
     ASSUMPTIONS = ["what pickle / dill / deepcopy do to bound methods, C-extension state and numpy's generator is runtime behaviour the model cannot exhibit: observation only (partial)",
                    "the model-level statement is: a run of k + m generations is the run of m generations from the state after k (state is a first-class value)"]
 
@@ -65,6 +65,9 @@ class C18(Check):
             # every third case carries user-supplied operators, the three kinds in turn (so that even the 10 cases of the quick tier cover each of them)
             user = i % 3 == 1
             cfg = hist.gen_hist_case(self.rng, algs=tuple(a for a in ALGS if a != "NSDER") if user else ALGS, n_gen=self.rng.choice([4, 5]))
+            if i % 5 == 2:
+                # multi-feature scenarios in turn, starting with stagnant generations of single-objective DE (a checkpoint follows every generation)
+                cfg = hist.gen_scenario_case(self.rng, 2 + i // 5, ALGS, n_gen=5) or cfg
             if self.rng.random() < 0.4 and cfg["alg"] != "DE":
                 cfg["F"] = None
             cfg["user_ops"] = kinds[(i // 3) % 3] if user else False
@@ -147,7 +150,8 @@ class C18(Check):
         return obs["n_cuts"] >= 3
 
     def classes(self, cfg, obs):
-        return [cfg["alg"], "F-default" if cfg["F"] is None else "F-given"] + (["user-operators-%s" % cfg["user_ops"]] if cfg.get("user_ops") else [])
+        return [cfg["alg"], "F-default" if cfg["F"] is None else "F-given"] + (["user-operators-%s" % cfg["user_ops"]] if cfg.get("user_ops") else []) + (
+            ["scenario-" + cfg["scenario"]] if cfg.get("scenario") else [])
 
 
 if __name__ == "__main__":
